@@ -147,6 +147,20 @@ def raw_rows(ds):
             for e in st.db[bid]:
                 rows.append((bid, e.id, us_of(e.timestamp), dus_of(e.duration), canon_data(e.data)))
         return rows
+    if b != "memory":
+        try:
+            return _raw_rows_sql(ds, st, b)
+        except Exception:
+            # the physical schema is not what this harness knows (a migration / refactor): fall back
+            # to the public API -- coarser (reads flush buffered writes) but never a harness failure
+            rows = []
+            for bid in sorted(ds.buckets()):
+                for t in sorted(dump_bucket(ds, bid), key=lambda t: (t[0] is None, t[0])):
+                    rows.append((bid, t[0], t[1], t[2], t[3]))
+            return rows
+
+
+def _raw_rows_sql(ds, st, b):
     if b == "sqlite":
         # no commit here: the store's own connection sees its open transaction, and an
         # observation must not flush buffered writes (a seeded rollback-on-error was masked by it)
@@ -160,10 +174,13 @@ def raw_buckets(ds):
     b = ds._verif_backend
     if b == "memory":
         return [(bid, json.dumps(st._metadata.get(bid), sort_keys=True, default=str)) for bid in st.db]
-    if b == "sqlite":
-        return [tuple(r) for r in st.conn.execute("SELECT rowid, id, name, type, client, hostname, created, datastr FROM buckets ORDER BY rowid")]
-    cur = st.db.execute_sql("SELECT key, id, name, type, client, hostname, created, datastr FROM bucketmodel ORDER BY key")
-    return [tuple(r) for r in cur.fetchall()]
+    try:
+        if b == "sqlite":
+            return [tuple(r) for r in st.conn.execute("SELECT rowid, id, name, type, client, hostname, created, datastr FROM buckets ORDER BY rowid")]
+        cur = st.db.execute_sql("SELECT key, id, name, type, client, hostname, created, datastr FROM bucketmodel ORDER BY key")
+        return [tuple(r) for r in cur.fetchall()]
+    except Exception:
+        return [(bid, bid, json.dumps(md, sort_keys=True, default=str)) for bid, md in sorted(ds.buckets().items())]
 
 
 def canon_rows(ds):
